@@ -559,7 +559,7 @@ def main():
             facts.update(fc)
             write_if_changed(os.path.join(OUT, name + ".v"), text)
         except AnchorMissing as e:
-            errors.append(str(e))
+            errors.append("[%s] %s" % (name, e))
     if "--json" in sys.argv:
         json.dump({"facts": facts, "errors": errors}, sys.stdout, default=str)
         print()
